@@ -147,6 +147,16 @@ fn inspect_released(log: &mut iso::Log, pid: i32, bin: &Path, flag: Option<&Path
     std::thread::sleep(std::time::Duration::from_millis(15));
     let st = proc_state(pid);
     let mut how = String::new();
+    if st == Some('Z') && is_our_child && flag.is_none() {
+        // nothing holds this program back: it may simply have finished between the release and this look
+        let w = waitpid(Pid::from_raw(pid), Some(WaitPidFlag::WNOHANG));
+        let code = match w {
+            Ok(WaitStatus::Exited(_, c)) => Some(c),
+            _ => None,
+        };
+        check(log, "released-finished-native", code.is_some() && code == native_code, format!("released program finished with {w:?}, native status {native_code:?}"));
+        return;
+    }
     if st == Some('Z') && is_our_child {
         how = format!(", wait status {:?}", waitpid(Pid::from_raw(pid), Some(WaitPidFlag::WNOHANG)));
     }
@@ -348,11 +358,21 @@ fn world_child(log: &mut iso::Log, bin: &Path, scratch: &str, tag: &str, plan: &
                 if let Err(e) = dbg.stepi() {
                     log.put(json!({"ev": "note", "what": format!("stepi: {e}")}));
                 }
+                if std::env::var("C11_DUMP").is_ok() {
+                    log.put(json!({"ev": "note", "what": format!("after stepi: {:?}", dbg.thread_state().map(|v| v.iter().map(|t| (t.thread.pid.as_raw(), t.in_focus, t.place.as_ref().map(|p| p.address))).collect::<Vec<_>>()).map_err(|e| e.to_string()))}));
+                }
             }
         }
     }
     let pid = dbg.process().pid().as_raw();
     let n_threads_live = live_tids(pid).len();
+    if std::env::var("C11_DUMP").is_ok() {
+        for t in live_tids(pid) {
+            let sc = std::fs::read_to_string(format!("/proc/{pid}/task/{t}/syscall")).unwrap_or_default();
+            log.put(json!({"ev": "note", "what": format!("tid {t} state {:?} syscall {}", e2e::task_state(Pid::from_raw(pid), t), sc.trim())}));
+        }
+        log.put(json!({"ev": "note", "what": format!("dbg threads {:?}", dbg.thread_state().map(|v| v.iter().map(|t| (t.thread.pid.as_raw(), t.place.as_ref().map(|p| p.address))).collect::<Vec<_>>()).map_err(|e| e.to_string()))}));
+    }
     log.put(json!({"ev": "before_end", "pid": pid, "exited": exited, "threads": n_threads_live, "exit_code": exit_code,
         "bps": dbg.breakpoints_snapshot().len()}));
     if exited {
@@ -525,6 +545,16 @@ pub fn run(args: &[String]) -> i32 {
                     n_bps: rng.range(0, 2), watch: rng.chance(1, 2), continues: rng.range(0, 6) });
             }
             plans.truncate(n_world.max(1));
+            // stress tail: multi-threaded attached histories repeated while spinner threads keep every core busy
+            // (a trap raised but not yet reported at the moment of the release needs a loaded machine to show)
+            let n_stress: usize = args.get(6).and_then(|s| s.parse().ok()).unwrap_or(0);
+            let stress_from = plans.len();
+            for k in 0..n_stress {
+                let stop = if k % 2 == 0 { StopKind::AfterStepi } else { StopKind::AtBreakpoint };
+                plans.push(WorldPlan { attached: true, threads: 3, stop, ending: if k % 4 < 2 { Ending::Drop } else { Ending::DetachDrop }, n_bps: 1, watch: false, continues: 1 + (k as u64 % 3) });
+            }
+            let spin_stop = std::sync::Arc::new(std::sync::atomic::AtomicBool::new(false));
+            let mut spinners = vec![];
             let only: Option<usize> = std::env::var("C11_ONLY").ok().and_then(|v| v.parse().ok());
             let repeat: usize = std::env::var("C11_REPEAT").ok().and_then(|v| v.parse().ok()).unwrap_or(1);
             let plans: Vec<WorldPlan> = match only {
@@ -533,6 +563,19 @@ pub fn run(args: &[String]) -> i32 {
             };
             for (wi, plan) in plans.iter().enumerate() {
                 let tag = format!("w{wi}");
+                if only.is_none() && wi == stress_from && n_stress > 0 {
+                    let n = std::thread::available_parallelism().map(|n| n.get()).unwrap_or(8) + 4;
+                    for _ in 0..n {
+                        let st = spin_stop.clone();
+                        spinners.push(std::thread::spawn(move || {
+                            let mut x = 0u64;
+                            while !st.load(std::sync::atomic::Ordering::Relaxed) {
+                                x = std::hint::black_box(x.wrapping_add(1));
+                            }
+                        }));
+                    }
+                    *hist.entry("stress-histories".into()).or_default() += n_stress as u64;
+                }
                 let (nout, ncode) = natives.get(&plan.threads).cloned().unwrap_or_default();
                 let bin2 = bin.clone();
                 let plan2 = plan.clone();
@@ -565,6 +608,12 @@ pub fn run(args: &[String]) -> i32 {
                         _ => {}
                     }
                 }
+                if std::env::var("C11_DUMP").is_ok() && res.lines.iter().any(|l| l["ev"] == "check" && l["ok"] != true) {
+                    for l in &res.lines {
+                        eprintln!("DUMP {tag} {l}");
+                    }
+                    eprintln!("DUMP {tag} stderr: {}", res.stderr);
+                }
                 match &res.end {
                     End::Completed => {}
                     End::Timeout => failures.push(json!({"key": format!("c11-e2e:hang:{phase}"), "note": "history made no progress for 120 s", "plan": key})),
@@ -582,9 +631,14 @@ pub fn run(args: &[String]) -> i32 {
                     samples.push(json!({"plan": key, "checks": res.lines.iter().filter(|l| l["ev"] == "check").map(|l| json!([l["name"], l["ok"]])).collect::<Vec<_>>()}));
                 }
             }
+            spin_stop.store(true, std::sync::atomic::Ordering::Relaxed);
+            for h in spinners {
+                let _ = h.join();
+            }
         }
         Err(e) => errors.push(format!("compile mt: {e}")),
     }
+    // (spinner threads, if any, are stopped inside the block above)
 
     // ---------------- restart histories ----------------
     let mut cases = CasesFile::new(&["Model.BpMachine"], "stop_case", "stop_check");
